@@ -37,7 +37,8 @@ def generate(tier, seed):
     ks = list(keys(kl))
     cases = []
     dist = {"patterns": len(pats), "keys": len(ks)}
-    extra_keys = ["a", "/a\n", "/a/b\n", "/a?q=1", "/a/b?x/y", "/a/?", "?/a", "/a//b", "//", "/A", "/ab/", "/😀/a"]
+    extra_keys = ["a", "/a\n", "/a/b\n", "/a?q=1", "/a/b?x/y", "/a/?", "?/a", "/a//b", "//", "/A", "/ab/", "/😀/a",
+                  "/é?q", "/é/b?x=1", "/é/bc?x=1", "/日本/b?x", "/a/é?b", "/é/a?é", "/€a/b?q=/a/b", "/ab/é/?", "/é/é?"]
     for p in pats:
         pt = pat_tok(p)
         names = [s[1:] for s in p if s.startswith(":")] or ["x"]
